@@ -172,3 +172,8 @@ package client
 //@ func (*TCPAllocation).HandleConnectionAttempt
 //@   requires a != nil && a.log != nil
 //@   assigns channels
+
+//@      // the retransmission schedule as a lemma over the per-firing clause [C12:doubles-capped]: starting from an RTO in
+//@      // (0, 1.6 s] every later interval stays in (0, 1.6 s], is exactly twice the previous one until the cap is reached
+//@      // and equals the cap from then on
+//@ lemma [C12:schedule] (i): 0 < i && i <= maxRtx() ==> 0 < min(2 * i, maxRtx()) && min(2 * i, maxRtx()) <= maxRtx() && (2 * i <= maxRtx() ==> min(2 * i, maxRtx()) == 2 * i) && (2 * i > maxRtx() ==> min(2 * i, maxRtx()) == maxRtx())
